@@ -29,15 +29,15 @@ SPEC = dict(
               "arith_shl_spec", "arith_shr_spec", "arith_not_spec", "arith_result_in_range", "div_mod_zero_reverts",
               "index_oob_reverts", "eval_deterministic", "eval_fuel_mono", "eval_fuel_mono_skip",
               "eval_outcome_unique", "welltyped_no_stuck_partial", "C01_partial"],
-    steps=[dict(bin="sv_c01", area="c01", n_quick=70, n_thorough=520, corpus="corpus/c01.txt",
-                args=["--pkg-size", "130", "--e2e", "auto"], dist_keys=_DIST, nontrivial=_nontrivial, timeout=5400)],
+    steps=[dict(bin="sv_c01", area="c01", n_quick=70, n_thorough=360, corpus="corpus/c01.txt",
+                args=["--pkg-size", "45", "--e2e", "auto"], dist_keys=_DIST, nontrivial=_nontrivial, timeout=5400)],
     custom=[_skip_guard],
     rule="random well-typed Sway programs over an explicit AST (harness/src/proggen.rs: u8/u16/u32/u64/u256, bool, "
          "tuples, structs, enums, arrays; + - * / % << >> & | ^ !, comparisons, && || !, widening casts, field / index "
          "access and assignment paths, if / match (enum, int, bool, tuple patterns) / blocks as expressions, while with "
          "break / continue, early return, assert / require / revert, generic and non-generic helper functions incl. "
          "near-duplicates and `const` items; operands either constant-rich or passed through #[inline(never)] "
-         "identities), ~130 programs per package, each package built by the real forc-pkg/sway-core in the debug AND "
+         "identities), 45 programs per package (3 packages side by side), each package built by the real forc-pkg/sway-core in the debug AND "
          "the release profile (worker processes with a timeout) and every program run on the real FuelVM through "
          "forc-test. One case = one program: revert status, revert code and every LOGD payload of both builds compared "
          "with SwaySem.run of the same AST. Every 12th program ends in an out-of-bounds dynamic index (`prog-oob`). "
